@@ -139,8 +139,8 @@ def run(ctx):
             g = dt.datetime.strptime(f[0], "%Y-%m-%d %H:%M:%S.%f")
             if g.month != m or (d is not None and g.day != d) or f[2] != period or f[1] != "naive":
                 return False
-            feb29 = (m == 2 and (d == 29 or (d is None and b.day == 29)))
-            span = 8 if feb29 else 1
+            feb29 = (m == 2 and d == 29)          # only a *named* 29 February may leave the reference year (it may not exist there)
+            span = 8 if m == 2 else 1
             if pref == "past":
                 return g <= b and b.year - span <= g.year <= b.year
             if pref == "future":
@@ -148,6 +148,10 @@ def run(ctx):
             return g.year == b.year or (feb29 and abs(g.year - b.year) <= 4)
         return pred
     mrefs = [D(2021, 8, 31, 13, 7), D(2020, 2, 29, 12), D(2023, 1, 1), D(2022, 12, 31, 23, 59), D(2024, 6, 15), D(2100, 3, 1), D(2096, 2, 28)]
+    # reference days that do not exist in every month (29th, 30th, 31st), in common and in leap years: a month named alone borrows the
+    # reference day and must be clamped inside the reference year
+    late = [D(y, m, d, 12, 34) for y in (2021, 2023, 2024) for m in range(1, 13) for d in (29, 30, 31) if d <= calendar.monthrange(y, m)[1]]
+    mrefs += late if tier != "quick" else [D(2021, 1, 29, 12, 34), D(2021, 3, 29, 12, 34), D(2023, 12, 29, 12, 34), D(2021, 5, 31, 12, 34), D(2024, 1, 31, 12, 34), D(2024, 3, 30, 12, 34), D(2021, 10, 30, 9)]
     for b in mrefs:
         for m in range(1, 13):
             days = [1, 15, calendar.monthrange(2024, m)[1]] if tier == "quick" else range(1, calendar.monthrange(2024, m)[1] + 1)
